@@ -7,13 +7,13 @@ open TddaVerif.Py TddaVerif.CheckStrings TddaVerif.Props.C04
 
 /-! ## the file plan -/
 
-theorem pass_writes_nothing (o : Opts) (pat : PatFn) (a e : List Line) (gnl : Bool)
+theorem pass_writes_nothing (o : Opts) (pat : PatFn) (a e : List Line) (gnl : Bool) (raw : Line)
     (h : (checkStrings o pat a e).failures = 0) :
-    plan o (checkStrings o pat a e) gnl = { rawActual := none, diffActual := none, diffExpected := none } := by
+    plan o (checkStrings o pat a e) gnl raw = { rawActual := none, diffActual := none, diffExpected := none } := by
   simp [plan, h]
 
-theorem file_actual_not_rewritten (o : Opts) (pat : PatFn) (a e : List Line) (gnl : Bool)
-    (hs : o.actualPath = true) : (plan o (checkStrings o pat a e) gnl).rawActual = none := by
+theorem file_actual_not_rewritten (o : Opts) (pat : PatFn) (a e : List Line) (gnl : Bool) (raw : Line)
+    (hs : o.actualPath = true) : (plan o (checkStrings o pat a e) gnl raw).rawActual = none := by
   unfold plan
   split
   · rfl
@@ -597,14 +597,12 @@ theorem ign_char (o : Opts) (pat : PatFn) (oa oe : List Line)
 
 /-! ## the artefact theorems that need the above -/
 
-theorem raw_actual_content (o : Opts) (pat : PatFn) (a e : List Line) (gnl : Bool)
+theorem raw_actual_content (o : Opts) (pat : PatFn) (a e : List Line) (gnl : Bool) (raw : Line)
     (hf : (checkStrings o pat a e).failures = 1) (hc : o.createTemporaries = true)
     (hs : o.actualPath = false) :
-    (plan o (checkStrings o pat a e) gnl).rawActual = some (joinNl (kept o a)) := by
-  have hk : (checkStrings o pat a e).actualAfter = kept o a := by
-    rw [cs_actualAfter, after_eq]; rfl
+    (plan o (checkStrings o pat a e) gnl raw).rawActual = some raw := by
   unfold plan
-  simp only [hf, hc, hs, hk]
+  simp only [hf, hc, hs]
   split
   · rename_i h
     exact absurd h (by decide)
